@@ -66,6 +66,8 @@ PalIk == <<CreateIk(WB, "k1", 0), CreateIk(WB, "k1", 1), CreateIkDry(WB, "k1"), 
            SetAcctIk("B", "v", "k1", 0), RevertIk(0, "k2", 1)>>
 \* C07: retries of a persisted original while the store fails a lookup of the key (used with MaxReadFail = 1)
 PalIkRead == <<CreateIk(WB, "k1", 0), CreateIk(WB, "k1", 0), CreateIk(WB, "k1", 1), SetAcctIk("B", "v", "k2", 0), SetAcctIk("B", "v", "k2", 1), RevertIk(0, "k3", 0)>>
+\* C11 / C10: the same while the store fails a lookup of the reference or of the transaction to revert (MaxReadFail = 1)
+PalRefRead == <<CreateRef(WB, "r1"), CreateRef(WC, "r1"), CreateRef(AB, "r2"), Revert(0, FALSE), Revert(1, FALSE)>>
 \* C10: racing reverts, forced and not, racing with a spend of the funds
 \* ... one of the racing reverts carrying an idempotency key
 PalRevert == <<Revert(0, FALSE), Revert(0, TRUE), Create(AB, "lit"), Create(ABC, "lit"), Create(ODD, "lit"), Create(TWO, "lit"), Revert(1, FALSE), Revert(1, TRUE),
@@ -96,4 +98,5 @@ PalDry24 == First7(PalDry2)
 PalMetaOnly4 == First7(PalMetaOnly)
 PalCache4 == First7(PalCache)
 PalIkRead4 == First7(PalIkRead)
+PalRefRead4 == First7(PalRefRead)
 =============================================================================
